@@ -3,6 +3,7 @@ package main
 import (
 	"bufio"
 	"bytes"
+	"encoding/binary"
 	"io"
 
 	"github.com/ipfs/go-cid"
@@ -185,10 +186,27 @@ func hashOK(c cid.Cid, data []byte) bool {
 // refSections is the harness's own minimal section enumerator over a byte string: used only
 // to fill the hash-oracle table with every (cid,data) pair a reader could ask about.
 func refSections(payload []byte) (out []Blk) {
+	// The v2 readers decode length prefixes with go-varint (minimal encodings only), the root module with
+	// encoding/binary (which also accepts padded encodings): the hash table must hold every section either of
+	// them can reach, so the payload is walked with both decoders.
+	strict := func(p []byte) (uint64, int) {
+		l, n, err := varint.FromUvarint(p)
+		if err != nil {
+			return 0, 0
+		}
+		return l, n
+	}
+	lenient := func(p []byte) (uint64, int) { return binary.Uvarint(p) }
+	out = refSectionsWith(payload, strict)
+	out = append(out, refSectionsWith(payload, lenient)...)
+	return
+}
+
+func refSectionsWith(payload []byte, uv func([]byte) (uint64, int)) (out []Blk) {
 	p := payload
 	for len(p) > 0 {
-		l, n, err := varint.FromUvarint(p)
-		if err != nil || n <= 0 {
+		l, n := uv(p)
+		if n <= 0 {
 			return
 		}
 		p = p[n:]
